@@ -58,6 +58,14 @@ def handlers : List (String × Handler) := [
     let r := assembleSeries items ori (← getOptRat j "rtol") (← getOptRat j "atol")
     pure (exceptToJson (fun (x : Rat × List Rat × List Nat) =>
       Json.mkObj [("spacing", ratToJson x.1), ("position", ratsToJson x.2.1), ("order", natsToJson x.2.2)]) r)),
+  ("assembleFrames", fun j => do
+    let rows ← getRows j "positions"
+    let ori ← getRatList j "ori"
+    let r := assembleFrames rows ori (← getOptRat j "hint") (← getOptRat j "rtol") (← getOptRat j "atol")
+      (← getBoolD j "allow_missing" false)
+    pure (exceptToJson (fun (x : Rat × List Rat × Int × List Int) =>
+      Json.mkObj [("spacing", ratToJson x.1), ("position", ratsToJson x.2.1), ("slices", (x.2.2.1 : Json)),
+                  ("frame_slices", intsToJson x.2.2.2)]) r)),
   ("uniqueRows", fun j => do
     let rows ← getRows j "positions"
     match rowsToV3 rows with
